@@ -338,6 +338,8 @@ def strip(t):
             t = t[1]
         elif t[0] == "promoted":
             t = t[1]
+        elif t[0] == "cast" and ("PointerCoercion" in t[1] or t[1] in ("PtrToPtr", "Transmute")):
+            t = t[2]
         else:
             return t
 
